@@ -33,6 +33,10 @@ prop("C10", "fault_enumeration",
      "exhaustive enumeration of peer scripts (every sequence of <=3/4 steps over a menu of correct and hostile frames) against the real acceptor and the real initiator over in-memory streams, plus every placement of one local fault (close / disable sync / actor shutdown) before each protocol step of real-vs-real sessions",
      "BobState::run and run_alice are driven over duplex streams by a scripted peer that owns a real replica (so 'correct next frame' is always available) and deviates at every step in every way of the menu; a frame relay injects one local fault before every incoming frame on either side. Both ends must return within the deadline without panic, into_outcome() must be callable after every outcome, a declined request leaves the store unchanged, and counters mirror on success.",
      "In-memory duplex transport; deadlines only as hang detectors with a 10x re-run.")
+prop("C11", "model_checking",
+     "explicit-state breadth-first search over the real coordination handlers of two LiveActors (dial decisions, request delivery/loss, accept/decline, independent completion of both session ends, captured resync dials), canonical state from the implementation's coordination snapshot plus in-flight dials, invariants S1-S5 on every state",
+     "Two real LiveActors (never run) are driven through sync_with_peer, accept_sync_request and the two completion handlers with synthetic session results; every interleaving of up to 3 (quick) / 4 (thorough) dials is explored; at most one session in progress, crossing dials resolve to exactly one accepted, a refused sync report yields exactly one follow-up at the end of the running session, every quiescent state is Idle on both nodes, unsynced documents are declined NotFound.",
+     "Network abstracted to deliver/lose and independent completions; handlers read only the coordination state in this set-up (no subscribers, nothing queued).")
 prop("C12", "model_checking",
      "exhaustive enumeration of all request sequences up to a depth (local/remote writes, messages of a reconciliation session with a real peer, subscriber churn, policy changes) through the real store actor, every subscriber's drained event list compared with the reference model after every acknowledged request",
      "All sequences of <=4 (quick) / <=5 (thorough) requests over a 17-symbol alphabet through SyncHandle with up to 3 subscribers; per subscriber exactly one event per applied entry, in application order, carrying the entry, origin, peer, content status and the policy's download flag; nothing for rejected/superseded entries; unsubscribing or dropping one subscriber leaves the others unaffected.",
